@@ -16,7 +16,7 @@ CODE = ["yowsup/layers/__init__.py:YowProtocolLayer._sendIq/processIqRegistry/re
         "yowsup/layers/axolotl/layer_send.py:sendToGroup", "yowsup/structs/protocolentity.py:_generateId"]
 BOUNDS = {"quick": "step: 1 outstanding request per kind (16 kinds), reply id unconstrained string, type in {result,error}, delivered twice; "
                    "history: 2 outstanding requests x 3 deliveries, kinds from 4 representatives",
-          "thorough": "history: 3 outstanding requests x 4 deliveries, kinds from 6 representatives"}
+          "thorough": "history: 3 outstanding requests x 3 deliveries (first kind fixed per case, others from 4 representatives) and 2 x 3 over 6 kinds"}
 OUTSIDE = ["reply types other than result/error (get/set with a matching id are not replies)", "id collisions through counter wrap (the counter is an unbounded int)",
            "more outstanding requests / deliveries than the bound"]
 ASSUMPTIONS = ["python-axolotl replaced by an ideal manager stub", "reply bodies have the documented shape of the request kind (C09 templates)"]
@@ -247,11 +247,30 @@ def finding_key(case, label, values, where):
     if case.startswith("history[") and values:
         # the same root cause seen through a history: an error delivered to an outstanding contact-sync request
         kinds = _history_kinds(case)
+        if "first=contact-sync" in case and label.startswith("r0:"):
+            return "C08|error reply to an application contact-sync request is swallowed by the protocol layer"
         for i in range(3):
             k = values.get("kind%d" % i)
             if k is not None and kinds and kinds[k] == "contact-sync" and label.startswith("r%d:" % i):
                 return "C08|error reply to an application contact-sync request is swallowed by the protocol layer"
     return None
+
+
+def _first_kind(a):
+    def f(ctx, n_req, n_del, kinds):
+        class C2(object):
+            def __init__(self, c):
+                self.c = c
+
+            def __getattr__(self, k):
+                return getattr(self.c, k)
+
+            def choice(self, name, opts):
+                if name == "kind0":
+                    return a
+                return self.c.choice(name, opts)
+        return h_history(C2(ctx), n_req, n_del, kinds)
+    return f
 
 
 def _history_kinds(case):
@@ -267,8 +286,8 @@ def cases(tier):
     if q:
         cs.append(dict(name="history[2req,3del]", fn=h_history, args=(2, 3, ("lastseen", "group-info", "contact-sync", "picture-get")), max_paths=20000, timeout_s=300, weight=50))
     else:
-        for a in ("lastseen", "contact-sync", "media-upload"):
-            cs.append(dict(name="history[3req,4del,first=%s]" % a, fn=h_history, args=(3, 4, (a, "group-info", "picture-get", "statuses-get")), max_paths=400000, timeout_s=3000, weight=500))
+        for a in ("lastseen", "contact-sync", "media-upload", "group-create"):
+            cs.append(dict(name="history[3req,3del,first=%s]" % a, fn=_first_kind(a), args=(3, 3, ("lastseen", "group-info", "picture-get", "contact-sync")), max_paths=400000, timeout_s=3400, weight=500))
         cs.append(dict(name="history[2req,3del]", fn=h_history, args=(2, 3, ("lastseen", "group-info", "contact-sync", "picture-get", "media-upload", "group-create")), max_paths=50000, timeout_s=1200, weight=100))
     cs.append(dict(name="internal[key-upload]", fn=h_internal_keyupload))
     cs.append(dict(name="internal[key-fetch]", fn=h_internal_keyfetch))
